@@ -57,9 +57,21 @@ for d in sorted(glob.glob(os.path.join(ROOT, "seeded", "*", "meta.json"))):
     srows.append(f"| {name} | {m.get('property')} | {title} | {needs} | {how} |")
 seeded = "\n".join(srows)
 
+# defects: one line per fixed / known entry of KNOWN_FINDINGS.txt
+drows = ["| property | state | commit / key | what failed (first 220 characters of the entry) |", "|---|---|---|---|"]
+for line in open(os.path.join(ROOT, "KNOWN_FINDINGS.txt")):
+    m = re.match(r"fixed:\s+property=(\S+)\s+(\S+)\s+(.*)", line)
+    if m:
+        drows.append(f"| {m.group(1)} | fixed | `{m.group(2)}` | {m.group(3)[:220].replace('|', '/')} |")
+    m = re.match(r"known:\s+property=(\S+)\s+key=(\S+)\s+(.*)", line)
+    if m:
+        drows.append(f"| {m.group(1)} | known | `{m.group(2)}` | {m.group(3)[:220].replace('|', '/')} |")
+nf = sum(1 for r in drows if "| fixed |" in r); nk = sum(1 for r in drows if "| known |" in r)
+defects = f"{nf} repaired (one `fix:` commit each), {nk} recorded as known findings.\n\n" + "\n".join(drows)
+
 dp = os.path.join(ROOT, "DESIGN.md")
 s = open(dp).read()
-for tag, body in (("status", status), ("seeded", seeded)):
+for tag, body in (("status", status), ("seeded", seeded), ("defects", defects)):
     s = re.sub(rf"(<!-- BEGIN:{tag} -->\n).*?(<!-- END:{tag} -->)", lambda m: m.group(1) + body + "\n" + m.group(2), s, flags=re.S)
 open(dp, "w").write(s)
 print("DESIGN.md regions updated")
